@@ -1,6 +1,9 @@
 """C04 — the stateful interface mirrors the functional one; observations are
 never stale.  See DESIGN.md §2 C04."""
 from .. import boot  # noqa: F401
+import copy
+import pickle
+
 import numpy as np
 
 from gym_gridverse.action import Action
@@ -35,7 +38,7 @@ ASSUMPTIONS = ['twin environments built from the same configuration with the sam
 REQUIRED = {'quick': {'sequences': 60, 'ops': 8000, 'reads.first_after_change': 1500, 'reads.repeated': 1500,
                       'before_reset.checked': 60, 'outer.checked': 500, 'outer.no_representation': 20, 'outer.inner_read_first': 200, 'outer.representation_reassigned': 30,
                       'stochastic_obs.sequences': 8, 'fresh.deterministic_checked': 1000, 'member_state.sequences': 5, 'fixed_reset.sequences': 5,
-                      'ops.refused_step': 50}}
+                      'ops.refused_step': 50, 'ops.clone.deepcopy': 30}}
 
 
 def op_sequence(rng, n):
@@ -60,13 +63,24 @@ def op_sequence(rng, n):
             ops.append('reset')
         elif r < 0.96:  # a step the environment must refuse, between two reads of the same state
             ops.extend([('obs', 1), 'bad_step', ('obs', rng.randint(1, 2))])
+        elif r < 0.975:  # continue with a copy of the environment, taken right after a step or reset or between reads
+            ops.extend([rng.choice([('step', rng.randrange(64)), 'reset', ('obs', 1)]), 'clone', rng.choice([('obs', 2), 'state'])])
         else:  # stretch of steps without any read
             ops.extend(('step', rng.randrange(64)) for _ in range(rng.randint(2, 6)))
     return ops
 
 
 def before_reset(ctx, make, label, payload):
-    env = make()
+    for variant in ('fresh', 'deepcopy', 'pickle'):
+        env = make()
+        if variant != 'fresh':
+            env = clone_env(env, variant)
+            if env is None:
+                continue
+        _before_reset(ctx, env, f'{label} ({variant} environment)', payload)
+
+
+def _before_reset(ctx, env, label, payload):
     for what, f in (('state', lambda: env.state), ('observation', lambda: env.observation),
                     ('step', lambda: env.step(env.action_space.actions[0]))):
         ctx.hit('before_reset.checked')
@@ -76,15 +90,27 @@ def before_reset(ctx, make, label, payload):
                           f'{label}: {what} before the first reset returned {type(res).__name__} instead of raising', 'seq_case', payload)
 
 
+def clone_env(env, how):
+    """an independent copy of a live environment, as a user checkpointing it would make one; None where the environment
+    cannot be copied that way (harness closures in it cannot be pickled, say) - copying is not what is being checked"""
+    try:
+        return copy.deepcopy(env) if how == 'deepcopy' else pickle.loads(pickle.dumps(env))
+    except Exception:  # noqa
+        return None
+
+
 def run_sequence(ctx, make, label, ops, deterministic_obs, payload):
     E, T, F = make(), make(), make()
     calls = {'n': 0}
-    orig = E.functional_observation
 
-    def counted(state):
-        calls['n'] += 1
-        return orig(state)
-    E.functional_observation = counted  # instance-level call counter
+    def count_calls(env):
+        orig = env.functional_observation
+
+        def counted(state):
+            calls['n'] += 1
+            return orig(state)
+        env.functional_observation = counted  # instance-level call counter
+    count_calls(E)
     s = None
     o = None
     done = False
@@ -112,6 +138,20 @@ def run_sequence(ctx, make, label, ops, deterministic_obs, payload):
                 ctx.violation('stateful', 'state.differs_from_functional', f'{where}: stateful state differs from the functional shadow',
                               'seq_case', payload)
                 return features
+        elif op == 'clone':
+            # the environment is replaced by a copy of itself (deepcopy, or a pickle round trip where the environment can be
+            # pickled at all): the copy is in the same situation - same state, same (un)computed observation, same generator
+            del E.functional_observation
+            how = 'deepcopy' if i % 2 else 'pickle'
+            C = clone_env(E, how)
+            if C is None and how == 'pickle':
+                how = 'deepcopy'
+                C = clone_env(E, how)
+            if C is not None:
+                E = C
+                ctx.hit('ops.clone.' + how)
+                features.add('clone')
+            count_calls(E)
         elif op == 'bad_step':
             outside = [a for a in Action if a not in E.action_space.actions]
             bad = outside[i % len(outside)] if outside else 'not an action'
